@@ -110,6 +110,7 @@ func TestVerifC12(t *testing.T) {
 			} else {
 				or.Odd = op.Odd
 				or.V = verifC12VaaFields(op.V)
+				or.MB = hex.EncodeToString(b)
 			}
 			row.Ops = append(row.Ops, or)
 			if !panicked && err == nil {
